@@ -1,6 +1,6 @@
 (* C05 - property theorems only.  Each is closed by `exact` of a lemma of C05_Proofs.v / C05_HalfClose.v / C05_Delay.v. *)
 From Coq Require Import List NArith ZArith Bool.
-From Dae Require Import C05_Spec C05_Model C05_Proofs C05_HCDefs C05_HalfClose C05_Delay C05_PoolModel C05_PoolProofs C05_BufioModel C05_BufioProofs C05_SpliceModel C05_SpliceProofs C05_ReadyModel C05_ReadyProofs.
+From Dae Require Import C05_Spec C05_Model C05_Proofs C05_HCDefs C05_HalfClose C05_Delay C05_PoolModel C05_PoolProofs C05_BufioModel C05_BufioProofs C05_SpliceModel C05_SpliceProofs C05_ReadyModel C05_ReadyProofs C05_LoopModel C05_LoopProofs.
 From Dae.gen Require Import C05_Extracted.
 Import ListNotations.
 Open Scope N_scope.
@@ -248,6 +248,25 @@ Theorem C05_ready_not_closed_on_timeout_refuted :
   exists rounds, let '(st, ret) := sniff_ready seed_closes rounds 0 in ret = true /\ receive_blocks st = true.
 Proof. exact ready_seed_refuted_proof. Qed.
 Print Assumptions C05_ready_not_closed_on_timeout_refuted.
+
+(* The buffered copy loops over read sequences (C05_LoopModel): a Read may return n > 0 bytes TOGETHER with
+   io.EOF or another error (io.Reader contract; TLS <= 1.2 legs, framed outbound conns, Sniffer.Read with a
+   pending dataError, prefixedConn.Read).  For relayCopyLoop and relayCopyDirect - the order "write buf[:nr], then
+   look at er" is extracted from the source - and for every sequence of read results, the bytes written are
+   exactly the bytes returned by the reads up to and including the read that returned the error.  (The relay
+   model of C05_relay_bytes_intact already takes read results of this form: rres carries data and error.) *)
+Theorem C05_relay_loop_bytes_intact :
+  forall reads,
+    fst (copy_loop c05_loop_write_first reads []) = returned_until_error reads
+    /\ fst (copy_loop c05_direct_write_first reads []) = returned_until_error reads.
+Proof. exact relay_loop_intact_proof. Qed.
+Print Assumptions C05_relay_loop_bytes_intact.
+
+(* looking at the error before writing is refuted: the bytes that came with the end of stream are dropped *)
+Theorem C05_relay_loop_error_first_refuted :
+  exists reads, fst (copy_loop false reads []) <> returned_until_error reads.
+Proof. exact error_first_refuted_proof. Qed.
+Print Assumptions C05_relay_loop_error_first_refuted.
 
 (* Non-vacuity / regression examples: the inputs that refuted the full statements before the repairs. *)
 Example C05_nonvacuous_port53_fallback :
